@@ -425,8 +425,13 @@ func execute(sc scenario, p perturbation, sink violationSink) (outcome string) {
 			written := 0
 			base := len(backendOut)
 			bounds := recordBoundaries(st.data)
-			for _, piece := range pieces {
+			for _, orig := range pieces {
+				// the backend reuses its buffer after every Write (io.CopyBuffer style): hand over a scratch copy and scribble on it afterwards
+				piece := append([]byte{}, orig...)
 				n, err := conn.Write(piece)
+				for i := range piece {
+					piece[i] = 0xEE
+				}
 				written += len(piece)
 				out := t.Out // single-threaded harness: direct access, no copy
 				for ; outChecked < len(out); outChecked++ {
